@@ -31,6 +31,7 @@ namespace vsp
         SplCase sc;
         FlowOpts o;
         o.grid.max_side = max_side;
+        o.grid.large_side = max_side >= 16 ? 64 : 32;
         o.grid.mesh_max_side = 5;
         o.ordinary_fields = true;  // |z| <= 100: Newton tolerances >= 1e-9 stay above rounding
         o.every_component = !s.chance(40);
